@@ -30,7 +30,7 @@ PROPS = {
                 suites=[('union', 1500, 40000), ('union-dec', 600, 15000), ('union-many', 8, 100), ('union-big', 8, 100), ('e2e', 800, 10000)], partial=[]),
     'C10': dict(facts=['Calls', 'Translated'], keys=['C10'], tkeys=['K:ns-certificate', 'K:ns-contiguity-hyp', 'T:layers', 'T:phase2-ns', 'T:ns-pivots'], suites=[('c10', 4000, 80000), ('c10-big', 12, 200), ('c10-mid', 24, 600)], partial=[]),
     'C11': dict(facts=['Calls'], keys=['C11'], tkeys=['T:phase2-longestpath', 'T:layers'], suites=[('c11', 2000, 50000), ('c11-deep', 8, 120)], partial=[]),
-    'C12': dict(facts=['Calls', 'Translated'], keys=['C12'], tkeys=['T:crossings', 'K:ordered', 'T:break', 'T:phase4-sinkcoloring', 'T:phase4-valign', 'T:phase4-packright', 'T:phase5', 'T:output', 'T:phase4-ns'], suites=[('c12', 2000, 50000), ('c12-deep', 6, 60), ('e2e-big', 8, 100)], partial=[]),
+    'C12': dict(facts=['Calls', 'Translated'], keys=['C12'], tkeys=['T:phase3-wmedian', 'T:wmedian-logged', 'T:crossings', 'K:ordered', 'T:break', 'T:phase4-sinkcoloring', 'T:phase4-valign', 'T:phase4-packright', 'T:phase5', 'T:output', 'T:phase4-ns'], suites=[('c12', 2000, 50000), ('c12-deep', 6, 60), ('e2e-big', 8, 100), ('c12-wide', 4, 40)], partial=[]),
     'C13': dict(facts=['Calls', 'Translated'], keys=['C13'],
                 tkeys=['T:crossings', 'K:ordered', 'T:break', 'T:phase3-wmedian', 'T:wmedian-logged', 'T:phase4-sinkcoloring',
                        'T:phase4-valign', 'T:phase4-packright', 'T:phase4-ns', 'T:phase5', 'T:output'],
